@@ -555,6 +555,18 @@ func (info *varalignLine) alignValueSingle(newWidth int) {
 		newSpace = " "
 	}
 
+	// Aligning the value must not push a line beyond the right margin
+	// that fits into it. Such a line keeps its tabs or gets a single
+	// space, like an outlier.
+	if newSpace != " " &&
+		tabWidthSlice(leadingComment, varnameOp, condStr(oldSpace == "", " ", oldSpace), info.value) <= 72 &&
+		tabWidthSlice(leadingComment, varnameOp, newSpace, info.value) > 72 {
+		if oldSpace != "" && strings.TrimLeft(oldSpace, "\t") == "" {
+			return
+		}
+		newSpace = " "
+	}
+
 	if newSpace == oldSpace {
 		return
 	}
